@@ -4,7 +4,7 @@ from shell import c04
 from shell import replayers
 ID = "C04"
 LEVEL = "other"
-FUNCTIONS = ["body:Transmitter._create_partitions#0", "body:IEvent.notify#0", "TradingEnv.notify", "TradingEnv._process_latent_events", "TradingEnv._process_nonlatent_events"]
+FUNCTIONS = ["body:Transmitter._create_partitions#0", "body:IEvent.notify#0", "TradingEnv.notify", "TradingEnv._process_latent_events", "TradingEnv._process_nonlatent_events", "Transmitter._next"]
 SHELL = [c04.delivery]
 LEVEL_TEXT = ("Deductive kernel: (i) the partition slot of an arbitrary event (body of the loop of Transmitter._create_partitions over a "
               "strictly increasing grid of symbolic length): stored exactly once, under the first timestep at or after its stamp, latent iff "
@@ -13,11 +13,12 @@ LEVEL_TEXT = ("Deductive kernel: (i) the partition slot of an arbitrary event (b
               "time when it is dispatched, a new-date notification stamped with the previous event's time precedes it iff the date changed "
               "(D4 fixed); (iv) TradingEnv._process_latent_events/_process_nonlatent_events (loops over a batch of symbolic length, index invariant): "
               "every buffered event is notified exactly once in list order, nothing with a stamp before the clock is notified, the clock ends at the last stamp, "
-              "the latent buffer is emptied, _done is only ever set (on StopIteration). Bounded shell: recording observer over enumerated grids/placements/latencies/folds/warm-up/markov and two "
+              "the latent buffer is emptied, _done is only ever set (on StopIteration); (v) Transmitter._next outside the warm-up step: one grid point per call, "
+              "strictly in order, returning exactly the two lists stored under it, StopIteration iff exhausted. Bounded shell: recording observer over enumerated grids/placements/latencies/folds/warm-up/markov and two "
               "consecutive episodes (completeness, exactly-once, order, on-time, latency side, stamps). D13 is a recorded finding.")
 EXPLANATION = LEVEL_TEXT
 NOT_DEDUCTIVE = ["whole-episode conclusions (completeness across the replay window, repeated episodes on one environment, global order of the log): bounded shell; "
-                 "Transmitter._reset/_next (numpy masks, itertools) are not verified deductively: Transmitter._next is an ASSUMED summary (raises StopIteration or returns the two batches of the next timestep, each in stamp order and after the clock)"]
+                 "Transmitter._reset/_next (numpy masks, itertools) are not verified deductively: Transmitter._next at call sites is an ASSUMED summary (raises StopIteration or returns the two batches of the next timestep, each in stamp order and after the clock); its steady-state branch is verified, its warm-up branch (first step, dict items + itertools.chain) and the sort inside _create_partitions are covered by the bounded shell only"]
 
 REPLAYERS = [
     ("Transmitter._create_partitions::loop0::body", replayers.partition_slot),
